@@ -225,6 +225,15 @@ class Run:
                 self.events[-1]["trk"]["hl"] = len(h)
                 self.events[-1]["trk"]["ht"] = self.tk(h[-1][0], "hist")
         rec.wrap(Q.statetracker, "timestamp", post=after_timestamp)
+
+        def after_detect(r):
+            # detect_deadlock() is called by the loop right after the event; the loop then clears the flag
+            if self.events:
+                e = self.events[-1]
+                e["steps"].append({"k": "ddl", "n": 0, "i": 0, "j": 0, "d": 0, "s": 0, "f": 0,
+                                   "x": 1 if r else 0, "y": 0, "w": [], "wq": []})
+                e["unchecked"] = False
+        rec.wrap(Q.deadlock_detector, "detect_deadlock", post=after_detect)
         try:
             if sc["stop"] == "time":
                 Q.simulate_until_max_time(sc["T"])
@@ -249,6 +258,9 @@ class Run:
         final["steps"] = R.take_steps()
         final["recs"] = new_records(R)
         final["ev"] = {"kind": "final", "node": 0, "cls": 0, "date": self.tk(Q.current_time)}
+        name = type(Q.statetracker).__name__
+        final["ttd"] = [{"s": rec.enc_tracker_state(name, st), "t": self.tk(v)}
+                        for st, v in getattr(Q, "times_to_deadlock", {}).items()]
         self.final = final
         return self.trace()
 
